@@ -104,7 +104,7 @@ def float_part(L, rng, n):
             start = tm(list(A[:3, 3]) + [0.1, 0.1, 0.0])
             rv = fsr.rotationFromVector(start, b).gTM()
             z = (B[:3, 3] - A[:3, 3]) / np.linalg.norm(B[:3, 3] - A[:3, 3])
-            L.log("rotationFromVector points local z along the vector", reg, float(np.abs(rv[:3, 2] - z).max()), 1e-4, case)
+            L.log("rotationFromVector points local z along the vector", reg, float(np.abs(rv[:3, 2] - z).max()), 1e-5, case)
         # ---- distances
         C = pose(rng)
         c3 = tm(C.copy())
